@@ -975,7 +975,8 @@ Proof.
   - step_cases Hst; simpl; try assumption; try reflexivity; try (exfalso; eapply NR; eauto; fail).
   - intros t0 th0 e Hn Hpc.
     destruct (install_threads _ _ _ _ _ _ Hn _ Hth1) as [[-> ->]|[[Hne Hold]|[Hin Hne]]].
-    + rewrite QF in Hst. step_cases Hst; simpl in Hpc; try discriminate; try (eapply NR; eauto).
+    + step_cases Hst; simpl in Hpc; try discriminate; try congruence; try (eapply NR; eauto; fail).
+      rewrite QF in Heqb. discriminate.
     + rewrite Hthr in Hold. eapply QR; eauto.
     + step_cases Hst; spawned_case Hin; simpl in Hpc; discriminate.
   - intros t0 th0 m Hn Hin.
@@ -985,7 +986,7 @@ Proof.
         try (apply in_app_or in Hin; destruct Hin as [Hin|[Hin|[]]];
              [apply OLD; exact Hin | try (exfalso; eapply call_res_not_join; eauto; fail)]);
         try (exfalso; eapply NR; eauto; fail).
-      inversion Hin; subst. symmetry. apply JM; auto.
+      inversion Hin; subst. apply JM; auto; rewrite g_join; assumption.
     + rewrite Hthr in Hold. eapply QJ; eauto.
     + step_cases Hst; spawned_case Hin2; simpl in Hin; contradiction.
 Qed.
